@@ -112,6 +112,9 @@ class Buffer(gpp.UGenParameter, gpp.NodeParameter):
         '''
 
         super(gpp.UGenParameter, self).__init__(self)
+        if alloc and frames is None:
+            # Refuse before taking a buffer number from the allocator.
+            raise ValueError('cannot allocate buffer, frames is None')
         self._server = server or srv.Server.default
         if bufnum is None:
             self._bufnum = self._server._next_buffer_number(1)
@@ -126,9 +129,6 @@ class Buffer(gpp.UGenParameter, gpp.NodeParameter):
         if cache:
             self._cache()
         if alloc:
-            if self._frames is None:
-                raise ValueError(
-                    f'cannot allocate buffer, frames is None')
             self.alloc(completion_msg)
 
     @property
